@@ -2,12 +2,14 @@ package main
 
 import (
 	"bytes"
+	"context"
 	"fmt"
 	"os"
 	"os/exec"
 	"path/filepath"
 	"strings"
 	"sync"
+	"time"
 
 	"rtcpverif/sim/instrument"
 )
@@ -44,6 +46,34 @@ type Build struct {
 	Desc    *instrument.Descriptor
 	GoVer   string
 	BuildS  float64
+	// Hot is the result of the calibration pass ("kinds:units", two hexadecimal masks): which packet kinds and unit
+	// operations reach statements that touch shared state.  Workers bias their workloads towards those.
+	Hot string
+}
+
+// withHot appends the calibration result to a worker's arguments.
+func (b *Build) withHot(args []string) []string {
+	if b.Hot == "" {
+		return args
+	}
+	return append(append([]string{}, args...), "-hot", b.Hot)
+}
+
+// calibrate runs the plain worker once in calibration mode.
+func (b *Build) calibrate() {
+	ctx, cancel := context.WithTimeout(context.Background(), 2*time.Minute)
+	defer cancel()
+	cmd := exec.CommandContext(ctx, b.Plain, "-calibrate")
+	cmd.Env = append(os.Environ(), "GOMAXPROCS=1")
+	out, err := cmd.Output()
+	if err != nil {
+		fmt.Fprintf(os.Stderr, "[simctl] calibration pass failed (%v): workloads stay unbiased\n", err)
+		return
+	}
+	h := strings.TrimSpace(string(out))
+	if h != "" && h != "0:0" {
+		b.Hot = h
+	}
 }
 
 func (b *Build) Cleanup() {
@@ -190,5 +220,6 @@ func buildWith(repo string, wantRace bool, rewrite bool) (*Build, error) {
 	if errRace != nil {
 		return b, fmt.Errorf("race build failed: %v\n%s", errRace, outRace.String())
 	}
+	b.calibrate()
 	return b, nil
 }
